@@ -4,6 +4,8 @@
 package zzverifpositive
 
 import (
+	"encoding/csv"
+	"io"
 	"os"
 	"sync"
 )
@@ -75,4 +77,11 @@ func CutsAtRawOffset(s string, n int) string {
 		return s
 	}
 	return s[:n]
+}
+
+// CSVWithCRLF violates R14.7 CSV-NO-CRLF.
+func CSVWithCRLF(w io.Writer) *csv.Writer {
+	cw := csv.NewWriter(w)
+	cw.UseCRLF = true
+	return cw
 }
